@@ -18,6 +18,7 @@ import Spec.Pcf
 import Spec.Resolve
 import Spec.JsonEnc
 import Model.Json
+import Model.JsonMachine
 import Model.Load
 import Model.Generate
 
@@ -313,6 +314,22 @@ def handle (j : Json) : String :=
     | none => "{\"err\":\"value\"}"
     | some f => "{\"f32\":\"" ++ String.ofList (Nat.toDigits 16 f.toNat) ++ "\",\"back\":\"" ++
         String.ofList (Nat.toDigits 16 (Fl.f32ToF64 f).toNat) ++ "\"}"
+  | "jm.enc" =>      -- the push-down machine: json_writer(schema, records) -> the documents written
+    match parseReq j with
+    | .error e => "{\"perr\":\"" ++ e.name ++ "\"}"
+    | .ok (s, env) =>
+      let vs := match getV j "values" with | .list xs => xs | _ => []
+      match JM.encodeAll (!(getB j "nowut")) FUEL env (wopts j) s vs with
+      | .error e => errOut e
+      | .ok docs => "{\"ok\":" ++ ofVal (.list docs) ++ "}"
+  | "jm.dec" =>      -- the push-down machine: list(json_reader(text, schema)) for the parsed lines `docs`
+    match parseReq j with
+    | .error e => "{\"perr\":\"" ++ e.name ++ "\"}"
+    | .ok (s, env) =>
+      let docs := match getV j "docs" with | .list xs => xs | _ => []
+      match JM.decodeAll FUEL env s docs with
+      | .error e => errOut e
+      | .ok vs => "{\"ok\":" ++ ofVal (.list vs) ++ "}"
   | "ofint" =>
     match Fl.ofInt (intOfJson (getJ j "n")) with
     | none => "{\"err\":\"value\"}"
@@ -326,6 +343,7 @@ partial def loop (hin hout : IO.FS.Stream) : IO Unit := do
     | .error _ => "{\"err\":\"bad-json\"}"
     | .ok j => handle j
   hout.putStrLn out
+  hout.flush
   loop hin hout
 
 def main : IO Unit := do
